@@ -116,6 +116,9 @@ def events():
     # the base class gains a wildcard its (already defined) subclass
     # declares itself: the subclass's own rule stays
     evs.append(("base_adds_wildcard",))
+    # the base class gains a *mapped* trait "zz" (its shadow is "zz_"): names
+    # that merely start with "zz" stay under their own rule
+    evs.append(("base_adds_map",))
     evs.append(("define_sub",))
     return evs
 
@@ -160,6 +163,12 @@ class Side:
         if k == "define_sub":
             self.Sub = self.mk_sub()
             self.s = self.Sub()
+            return ("ok",)
+        if k == "base_adds_map":
+            try:
+                self.Base.add_class_trait("zz", Map({"a": 1, "b": 2}))
+            except Exception as e:
+                return ("other", type(e).__name__)
             return ("ok",)
         if k == "base_adds_wildcard":
             try:
@@ -247,6 +256,8 @@ class Model:
 def enabled(model, ev):
     if ev[0] == "define_sub":
         return not model.has_sub
+    if ev[0] == "base_adds_map":
+        return not getattr(model, "base_map", False)
     if ev[0] == "base_adds_wildcard":
         return model.has_sub and not getattr(model, "base_wild", False)
     if ev[1] == "s" and not model.has_sub:
@@ -271,7 +282,8 @@ def check_policy(ctx, model, ev, out, bad):
         ctx.outcome("subclass-defined-late")
         return
     if k in ("add_trait2", "add_trait_list", "get_items", "set_items",
-             "base_adds_wildcard", "add_trait_map", "get_shadow",
+             "base_adds_wildcard", "base_adds_map", "add_trait_map",
+             "get_shadow",
              "set_shadow", "add_trait_prop"):
         return          # (decided by the twin comparison)
     how, f = model.gov(ev[1])
@@ -430,6 +442,8 @@ def run_history(ctx, kind, name, hist):
         last = i == len(hist) - 1
 
         def bad(k, msg):
+            if getattr(model, "base_map", False) and name.startswith("zz"):
+                k += ":after-class-map"
             ctx.violation("C13:%s:%s:%s:%s" % (k, kind, name, ev[0]), msg,
                           kind=kind, name=name, history=hist,
                           real=repr(o1), twin=repr(o2))
@@ -465,6 +479,8 @@ def run_history(ctx, kind, name, hist):
             model.inst[ev[1]] = "Prop"
         if ev[0] == "base_adds_wildcard":
             model.base_wild = True
+        if ev[0] == "base_adds_map":
+            model.base_map = True
         if ev[0] == "remove_trait":
             if ev[1] == "b" and model.inst[ev[1]] in ("List", "Map"):
                 # removing the trait removes its companion with whatever
@@ -488,6 +504,7 @@ def run_history(ctx, kind, name, hist):
            sorted(real.m.__dict__.items(), key=repr),
            model.ro_written["b"], model.ro_written["s"],
            model.ro_written["m"], getattr(model, "base_wild", False),
+           getattr(model, "base_map", False),
            name in real.Base.__dict__.get("__class_traits__", {}),
            name in real.Base.__base_traits__,
            # the instance trait tables are state too (they live outside
